@@ -12,7 +12,7 @@ import warnings
 warnings.filterwarnings("ignore")
 
 
-class CaseTimeout(Exception):
+class CaseTimeout(BaseException):
     pass
 
 
